@@ -20,51 +20,54 @@ flag.  It is what the auth handlers guarantee (property C03; tied below by the s
 namespace Tunnox.C04
 open Gen
 
-/-- **C04.**  Whatever the mappings, the connection, the request and the tunnel state: if the requester is not
-entitled to the mapping of the tunnel it addresses (authenticated listen client presenting that mapping's id,
-or authenticated listen/target client presenting that mapping's secret, the mapping being known, not revoked,
-not expired and active), the dispatcher answers with a failure acknowledgement, attaches the connection
-nowhere — not as source, not as target, not through another node — and no tunnel traffic reaches it. -/
-theorem C04_main (w : World) (id : ConnIdent) (req : Req) (ts : TunnelState) (hwf : identWF id = true) :
-    holds w id req ts ((openTunnel w id req ts).obs ts) = true := by
-  unfold holds
-  by_cases hr : openTunnel w id req ts = refuse
-  · rw [hr]; simp [refuse, Outcome.obs]
-  · obtain ⟨cc, hf, ha, hm⟩ := passed_of_not_refused hr
+/-- The model writes at most one acknowledgement per request and attaches only what it acknowledged. -/
+theorem ack_discipline_model (w : World) (id : ConnIdent) (req : Req) (ts : TunnelState) (late : Late) :
+    ackDiscipline ((openTunnelDyn w id req ts late).obsDyn ts late) = true := by
+  have ha := attach_acked w id req ts late
+  unfold ackDiscipline Outcome.obsDyn
+  simp only
+  cases hack : (openTunnelDyn w id req ts late).ack <;>
+    cases hatt : (openTunnelDyn w id req ts late).attach <;> simp_all
+
+/-- First clause on the state at arrival: not entitled ⇒ the refusal. -/
+theorem arrival_clause (w : World) (id : ConnIdent) (req : Req) (ts : TunnelState) (late : Late)
+    (hwf : identWF id = true) :
+    (entitledB w id req ts ||
+      (((openTunnelDyn w id req ts late).obsDyn ts late).ack == .fail &&
+       ((openTunnelDyn w id req ts late).obsDyn ts late).att == .none &&
+       !((openTunnelDyn w id req ts late).obsDyn ts late).data)) = true := by
+  by_cases hr : openTunnelDyn w id req ts late = refuse
+  · rw [hr]; simp [refuse, Outcome.obsDyn]
+  · obtain ⟨cc, hf, ha, hm⟩ := passed_of_not_refused_dyn hr
     rw [entitled_of_passed hwf hf ha hm]; rfl
 
-/-- **C04, tunnel state changing during the request.**  `late` is whatever bridge or waiting route appears
-(for any mapping, on this or another node) while a request that found nothing at arrival is polling, or —
-`.window` — the bridge registered between the dispatcher's own look-up and the second look-up of
-`handleTargetBridge` / the insert-if-absent of `startSourceBridge`.  The
-acknowledgement obeys `holds` for the state at arrival, and the connection is attached to the tunnel that
-appeared — or receives bytes from it — only if it is entitled to THAT tunnel's mapping. -/
-theorem C04_main_dyn (w : World) (id : ConnIdent) (req : Req) (ts : TunnelState) (late : Late)
+/-- Second clause: whatever it is attached to (or receives bytes from) is a tunnel of a mapping it is entitled to. -/
+theorem attached_clause (w : World) (id : ConnIdent) (req : Req) (ts : TunnelState) (late : Late)
     (hwf : identWF id = true) :
-    holdsDyn w id req ts late ((openTunnelDyn w id req ts late).obsDyn ts late) = true := by
-  unfold holdsDyn holds
+    ((((openTunnelDyn w id req ts late).obsDyn ts late).att == .none &&
+       !((openTunnelDyn w id req ts late).obsDyn ts late).data) ||
+      entitledB w id req (attachedTs ts late ((openTunnelDyn w id req ts late).obsDyn ts late).att)) = true := by
   by_cases hr : openTunnelDyn w id req ts late = refuse
   · rw [hr]; simp [refuse, Outcome.obsDyn]
   · obtain ⟨cc, hf, ha, hm⟩ := passed_of_not_refused_dyn hr
     have he := entitled_of_passed hwf hf ha hm
-    rw [he]
-    simp only [Bool.true_or, Bool.true_and]
-    -- where is it attached?
     cases ts with
     | bridge m sv => simp [attachedTs, he]
     | remote m n => simp [attachedTs, he]
     | none =>
-      cases late with
-      | none => simp [attachedTs, he]
-      | route m n b =>
-        rcases dyn_none_cases w id req (.route m n b) with h | h | h
-        · exact absurd h hr
-        · rw [h]; simp [attachedTs, Outcome.obsDyn, handleSourceBridge, he]
-        · rw [h]
+      rcases dyn_none_cases w id req late with h | h | h | ⟨m, hl, hmm, h⟩
+      · exact absurd h hr
+      · -- source of its own new tunnel (or nothing)
+        rw [h]
+        cases late <;> simp [attachedTs, Outcome.obsDyn, handleSourceBridge, he]
+      · rw [h]
+        cases late with
+        | none => simp [attachedTs, Outcome.obsDyn, handleTargetBridge]
+        | noRouting => simp [attachedTs, Outcome.obsDyn, handleTargetBridge]
+        | early m => simp [attachedTs, Outcome.obsDyn, handleTargetBridge]
+        | route m n b =>
           by_cases hat : (handleTargetBridge w req (.route m n b)).attach = .none
-          · have hd : ((handleTargetBridge w req (.route m n b)).obsDyn .none (.route m n b)).data = false := by
-              simp [Outcome.obsDyn, hat]
-            simp [Outcome.obsDyn, hat] at hd ⊢
+          · simp [Outcome.obsDyn, hat]
           · have hmm := late_attach_mapping hat
             have he' : entitledB w id req (.remote m n) = true :=
               entitled_of_passed hwf hf ha (by simpa [tunnelMappingID] using hmm)
@@ -75,16 +78,7 @@ theorem C04_main_dyn (w : World) (id : ConnIdent) (req : Req) (ts : TunnelState)
               · split <;> simp
               · split <;> simp
             simp [attachedTs, Outcome.obsDyn, hns, he']
-      | noRouting =>
-        rcases dyn_none_cases w id req .noRouting with h | h | h
-        · exact absurd h hr
-        · rw [h]; simp [attachedTs, Outcome.obsDyn, handleSourceBridge, he]
-        · rw [h]; simp [attachedTs, Outcome.obsDyn, handleTargetBridge]
-      | window m =>
-        rcases dyn_none_cases w id req (.window m) with h | h | h
-        · exact absurd h hr
-        · rw [h]; simp [attachedTs, Outcome.obsDyn, handleSourceBridge]
-        · rw [h]
+        | window m =>
           by_cases hat : (handleTargetBridge w req (.window m)).attach = .none
           · simp [Outcome.obsDyn, hat]
           · have hmm := window_attach_mapping hat
@@ -92,6 +86,43 @@ theorem C04_main_dyn (w : World) (id : ConnIdent) (req : Req) (ts : TunnelState)
               entitled_of_passed hwf hf ha (by simpa [tunnelMappingID] using hmm)
             have hns := window_attach_not_source w req m
             simp [attachedTs, Outcome.obsDyn, hns, he']
+      · -- the bridge registered between the dispatcher's two look-ups
+        subst hl
+        have he' : entitledB w id req (.bridge m false) = true :=
+          entitled_of_passed hwf hf ha (by simpa [tunnelMappingID] using hmm)
+        rw [h]; simp [attachedTs, Outcome.obsDyn, he']
+
+/-- **C04, tunnel state changing during the request.**  `late` is whatever bridge or waiting route appears
+(for any mapping, on this or another node) while a request that found nothing at arrival is polling, or —
+`.window` / `.early` — the bridge registered between two of the dispatcher's look-ups.  The acknowledgement obeys
+`holds` for the state at arrival; the connection is attached to the tunnel that appeared — or receives bytes
+from it — only if it is entitled to THAT tunnel's mapping; and there is at most one acknowledgement per request,
+written before anything is attached. -/
+theorem C04_main_dyn (w : World) (id : ConnIdent) (req : Req) (ts : TunnelState) (late : Late)
+    (hwf : identWF id = true) :
+    holdsDyn w id req ts late ((openTunnelDyn w id req ts late).obsDyn ts late) = true := by
+  unfold holdsDyn holds
+  rw [arrival_clause w id req ts late hwf, ack_discipline_model w id req ts late,
+    attached_clause w id req ts late hwf]
+  rfl
+
+theorem obsDyn_none (o : Outcome) (ts : TunnelState) : o.obsDyn ts .none = o.obs ts := by
+  unfold Outcome.obsDyn Outcome.obs
+  cases o.attach <;> cases ts <;> rfl
+
+/-- **C04.**  Whatever the mappings, the connection, the request and the tunnel state: if the requester is not
+entitled to the mapping of the tunnel it addresses (authenticated listen client presenting that mapping's id,
+or authenticated listen/target client presenting that mapping's secret, the mapping being known, not revoked,
+not expired and active), the dispatcher answers with a failure acknowledgement, attaches the connection
+nowhere — not as source, not as target, not through another node — and no tunnel traffic reaches it; in every
+case it writes at most one acknowledgement. -/
+theorem C04_main (w : World) (id : ConnIdent) (req : Req) (ts : TunnelState) (hwf : identWF id = true) :
+    holds w id req ts ((openTunnel w id req ts).obs ts) = true := by
+  have h := C04_main_dyn w id req ts .none hwf
+  unfold holdsDyn at h
+  simp only [Bool.and_eq_true] at h
+  rw [obsDyn_none] at h
+  exact h.1
 
 /-- Attachment in a changing tunnel state: whatever the connection is attached to — the tunnel found at arrival,
 the bridge it creates, or the tunnel that appears while it polls — it is authenticated and entitled to that
@@ -163,6 +194,35 @@ theorem unauthenticated_refused (w : World) (id : ConnIdent) (req : Req) (ts : T
     obtain ⟨m, hA⟩ := auth_sound ha
     have := proven_of_control hwf hf hA.cid_ne
     exact absurd (this ▸ h) hA.cid_ne
+
+/-- **Client id 0 is nobody, also for a mapping whose listen client is 0.**  A mapping the server itself listens
+on (HTTP-domain mappings made through the management API) has `ListenClientID = 0`; the translated
+`CanBeAccessedBy 0` is then TRUE for it.  The dispatcher must not lean on "0 matches no listen client": a control
+connection record without a client id (a tunnel-type handshake that failed or stopped at the challenge), a
+temporary one without an id, or no record at all is refused — whatever the mapping's listen client, whatever is
+presented, in every tunnel state. -/
+theorem zero_client_refused (w : World) (id : ConnIdent) (req : Req) (ts : TunnelState) (late : Late)
+    (h : ∀ cc, findControlConnection id = some cc → cc.clientID = 0) :
+    openTunnelDyn w id req ts late = refuse := by
+  by_cases hr : openTunnelDyn w id req ts late = refuse
+  · exact hr
+  · obtain ⟨cc, hf, ha, _⟩ := passed_of_not_refused_dyn hr
+    obtain ⟨m, hA⟩ := auth_sound ha
+    exact absurd (h cc hf) hA.cid_ne
+
+/-- For such a mapping the mapping-id clause entitles nobody (its listen client is not a client): whoever is
+entitled to it presented its secret as its listen or target client. -/
+theorem server_listened_needs_secret (w : World) (id : ConnIdent) (req : Req) (ts : TunnelState) (m : PortMapping)
+    (hm : w.getPortMapping (tunnelMappingID req ts) = some m) (hz : m.ListenClientID = 0)
+    (he : entitledB w id req ts = true) : req.SecretKey = m.SecretKey ∧ req.SecretKey ≠ "" ∧ provenClient id = m.TargetClientID := by
+  unfold entitledB at he
+  rw [hm] at he
+  simp only [Bool.and_eq_true, Bool.or_eq_true, bne_iff_ne, ne_eq, beq_iff_eq, hz] at he
+  obtain ⟨hp, _, hc⟩ := he
+  rcases hc with ⟨_, h0⟩ | ⟨⟨hs, hk⟩, h0 | ht⟩
+  · exact absurd h0 hp
+  · exact absurd h0 hp
+  · exact ⟨hk, hs, ht⟩
 
 /-- Credentials for one mapping never open a tunnel of another mapping. -/
 theorem other_mapping_refused (w : World) (id : ConnIdent) (req : Req) (m : String) (sv : Bool) (n : String)
@@ -316,7 +376,7 @@ theorem skel_handleExistingBridge : Skel.handleExistingBridge =
      "bridge.SetTargetConnection"] := by decide
 
 theorem skel_handleTargetBridge : Skel.handleTargetBridge =
-    ["bridgeLock.RLock", "handleCrossNodeTargetConnection", "bridge.GetMappingID", "bridge.SetTargetConnection"] := by
+    ["bridgeLock.RLock", "handleCrossNodeTargetConnectionAcked", "bridge.GetMappingID", "bridge.SetTargetConnection"] := by
   decide
 
 theorem skel_crossNode : Skel.handleCrossNodeTargetConnection = ["lookupTunnelRouting", "processCrossNodeForward"] ∧
@@ -386,14 +446,14 @@ example : openTunnelDyn wTwo targetOfF secretReqF .none (.route "M" "node-A" tru
 example : openTunnelDyn wTwo targetOfF secretReqF .none (.route "M" "node-B" false) = ⟨.ok, .none, .err⟩ := by decide
 -- what `holdsDyn` rejects: F's target as target of M's late bridge, reading M's bytes (the observation made on a
 -- tree where `processCrossNodeForward` takes the local-bridge shortcut before comparing the mappings)
-example : holdsDyn wTwo targetOfF secretReqF .none (.route "M" "node-A" true) ⟨.ok, .target, true⟩ = false := by decide
-example : holdsDyn wTwo targetOfF secretReqF .none (.route "M" "node-A" true) ⟨.ok, .none, false⟩ = true := by decide
+example : holdsDyn wTwo targetOfF secretReqF .none (.route "M" "node-A" true) ⟨.ok, .target, true, 1⟩ = false := by decide
+example : holdsDyn wTwo targetOfF secretReqF .none (.route "M" "node-A" true) ⟨.ok, .none, false, 1⟩ = true := by decide
 
 -- a bridge registered in the window between the dispatcher's look-up and handleTargetBridge's look-up
 example : openTunnelDyn wTwo targetClient secretReq .none (.window "M") = ⟨.ok, .target, .switch⟩ := by decide
 example : openTunnelDyn wTwo targetOfF secretReqF .none (.window "M") = ⟨.ok, .none, .err⟩ := by decide
 example : openTunnelDyn wTwo listenClient midReq .none (.window "F") = ⟨.ok, .none, .err⟩ := by decide
-example : holdsDyn wTwo targetOfF secretReqF .none (.window "M") ⟨.ok, .target, true⟩ = false := by decide
+example : holdsDyn wTwo targetOfF secretReqF .none (.window "M") ⟨.ok, .target, true, 1⟩ = false := by decide
 
 /-! ### identity asserted by the transport, configuration, fault points -/
 
@@ -414,5 +474,44 @@ example : openTunnelDyn wTwo listenClient midReq .none .noRouting = ⟨.ok, .sou
 -- the node holding the bridge cannot be reached: acknowledged, then nothing
 example : openTunnel { wTwo with unreachable := ["node-B"] } targetClient secretReq (.remote "M" "node-B") = ⟨.ok, .none, .err⟩ := by
   decide
+
+/-! ### a mapping the server itself listens on (listen client 0) -/
+
+def wZero : World :=
+  { mappings := [⟨"Z", 0, 22, "s3cretZ", "active", false, none⟩], now := 1000, nodeID := "node-A" }
+def halfOpen : ConnIdent := ⟨true, 0, false, false, 0⟩     -- handshake refused: a record with client id 0
+def zidReq : Req := ⟨true, "Z", "verif-tunnel-01", "", ""⟩
+def zsecReq : Req := ⟨true, "Z", "verif-tunnel-01", "s3cretZ", ""⟩
+
+-- the translated predicate does say yes to client 0 here …
+example : Gen.models.PortMapping.CanBeAccessedBy 1000 ⟨"Z", 0, 22, "s3cretZ", "active", false, none⟩ 0 = true := by decide
+-- … the dispatcher does not
+example : openTunnel wZero halfOpen zidReq .none = refuse := by decide
+example : openTunnel wZero halfOpen zidReq (.bridge "Z" false) = refuse := by decide
+example : openTunnel wZero nobody zidReq .none = refuse := by decide
+-- what `holds` rejects: the observation made when the client-id guard is skipped on the mapping-id path
+example : holds wZero halfOpen zidReq .none ⟨.ok, .source, false, 1⟩ = false := by decide
+-- the target client with the secret is still served
+example : openTunnel wZero targetClient zsecReq (.remote "Z" "node-B") = ⟨.ok, .forward "node-B", .switch⟩ := by decide
+
+/-! ### one acknowledgement per TunnelOpen -/
+
+-- the rightful target forwarded from the polling path: what `holdsDyn` rejects is the observation made before the
+-- repair (a second TunnelOpenAck from forwardToSourceNode, delivered to a client already in stream mode) …
+example : holdsDyn wTwo targetClient secretReq .none (.route "M" "node-B" false) ⟨.ok, .forward "node-B", true, 2⟩ = false := by
+  decide
+-- … and what it accepts is what the model (and the repaired code) does
+example : holdsDyn wTwo targetClient secretReq .none (.route "M" "node-B" false) ⟨.ok, .forward "node-B", true, 1⟩ = true := by
+  decide
+example : openTunnelDyn wTwo targetClient secretReq .none (.route "M" "node-B" false) = ⟨.ok, .forward "node-B", .switch⟩ := by
+  decide
+-- the bridge registered between the dispatcher's bridge look-up and its route look-up: acknowledged, then attached;
+-- attached without any acknowledgement (handleLocalBridgeWait before the repair) is rejected
+example : openTunnelDyn wTwo targetClient secretReq .none (.early "M") = ⟨.ok, .target, .switch⟩ := by decide
+example : openTunnelDyn wTwo targetOfF secretReqF .none (.early "M") = refuse := by decide
+example : holdsDyn wTwo targetClient secretReq .none (.early "M") ⟨.none, .target, true, 0⟩ = false := by decide
+-- a listen client arriving in that window is attached as TARGET of the other request's bridge (the route branch does
+-- not look at the role)
+example : openTunnelDyn wTwo listenClient midReq .none (.early "M") = ⟨.ok, .target, .switch⟩ := by decide
 
 end Tunnox.C04
